@@ -2,9 +2,9 @@
    src/drivers/Socket.py (SocketDriver._sendIfMsgs, ._handleSocketError,
    ._read), src/drivers/__init__.py (parseMsg, and the "an exception ends the
    driver" rule of drivers.run) and src/utils/str.py (decode_raw_line without
-   charade).  Mirrors the Python statement by statement, defects included:
-   the out-buffer is a *str* that is sliced by the *byte* count send() returned.
-   No proofs in this file. *)
+   charade).  Mirrors the Python statement by statement.  The out-buffer holds
+   the unsent BYTES (repair of finding C11.F11: it used to be a str sliced by the
+   byte count send() returned).  No proofs in this file. *)
 From Coq Require Import List NArith ZArith Bool.
 Import ListNotations.
 Require Import Base.Wire Base.PyStr.
@@ -22,7 +22,6 @@ Definition utf8_char (c : N) : bytes :=
 
 Definition utf8 (s : str) : bytes := flat_map utf8_char s.
 
-Definition is_ascii (c : N) : bool := c <? 0x80.
 Definition is_surrogate (c : N) : bool := (0xD800 <=? c) && (c <=? 0xDFFF).
 Definition encodable (c : N) : bool := negb (is_surrogate c) && (c <=? 0x10FFFF).
 
@@ -112,26 +111,26 @@ Variable sep : N.                       (* the byte of inbuffer.split(...) *)
 
 (* connected/eagains/inbuffer/outbuffer are the attributes of the driver;
    dead: an exception left the driver (drivers.run removes it for good);
-   wire/taken/slipped/received/delivered are ghost observations: bytes the
-   socket accepted, text of every message taken from the queue, "a short
-   write ended beyond a non-ASCII character", bytes recv() returned, messages
-   passed to irc.feedMsg. *)
+   wire/taken/queued/received/delivered are ghost observations: bytes the
+   socket accepted, text of every message taken from the queue, text of the
+   messages whose encoding entered the out-buffer (= taken unless the encoding
+   of a batch raised), bytes recv() returned, messages passed to irc.feedMsg. *)
 Record state : Type := St {
   connected : bool; dead : option exn; eagains : N;
-  inbuffer : bytes; outbuffer : str;
-  wire : bytes; taken : str; slipped : bool;
+  inbuffer : bytes; outbuffer : bytes;
+  wire : bytes; taken : str; queued : str;
   received : bytes; delivered : list M }.
 
-Definition init : state := St true None 0 [] [] [] [] false [] [].
+Definition init : state := St true None 0 [] [] [] [] [] [] [].
 
 Definition set_conn (st : state) (c : bool) : state :=
-  St c (dead st) (eagains st) (inbuffer st) (outbuffer st) (wire st) (taken st) (slipped st)
+  St c (dead st) (eagains st) (inbuffer st) (outbuffer st) (wire st) (taken st) (queued st)
      (received st) (delivered st).
 Definition set_dead (st : state) (e : exn) : state :=
-  St (connected st) (Some e) (eagains st) (inbuffer st) (outbuffer st) (wire st) (taken st) (slipped st)
+  St (connected st) (Some e) (eagains st) (inbuffer st) (outbuffer st) (wire st) (taken st) (queued st)
      (received st) (delivered st).
 Definition set_eagains (st : state) (n : N) : state :=
-  St (connected st) (dead st) n (inbuffer st) (outbuffer st) (wire st) (taken st) (slipped st)
+  St (connected st) (dead st) n (inbuffer st) (outbuffer st) (wire st) (taken st) (queued st)
      (received st) (delivered st).
 
 (* _handleSocketError(e); None = the socket was closed *)
@@ -144,45 +143,50 @@ Definition handle_error (e : option N) (st : state) : state :=
       else set_eagains st (eagains st + 1)
   end.
 
-(* does a send of n bytes out of [data = utf8 buf] leave the str buffer right?
-   yes iff everything went out or the first n characters are ASCII *)
-Definition cut_ok (n : nat) (buf : str) (data : bytes) : bool :=
-  Nat.eqb n (length data) || forallb is_ascii (firstn n buf).
-
 (* what conn.send(data) returns when the OS accepts at most k bytes *)
 Definition sent_count (k : N) (data : bytes) : nat := N.to_nat (N.min k (N.of_nat (length data))).
 
-(* outbuffer += ''.join(map(str, msgs)), msgs = everything takeMsg() handed out *)
+(* data = ''.join(map(str, msgs)).encode(); self.outbuffer += data
+   msgs = everything takeMsg() handed out.  UnicodeEncodeError (a lone
+   surrogate) is not a socket.error: it leaves _sendIfMsgs before the buffer is
+   touched, and the batch is lost with the driver. *)
 Definition enqueue (msgs : list str) (st : state) : state :=
-  St (connected st) (dead st) (eagains st) (inbuffer st) (outbuffer st ++ concat msgs) (wire st)
-     (taken st ++ concat msgs) (slipped st) (received st) (delivered st).
+  let text := concat msgs in
+  match encode_str text with
+  | Raise e =>
+      St (connected st) (Some e) (eagains st) (inbuffer st) (outbuffer st) (wire st)
+         (taken st ++ text) (queued st) (received st) (delivered st)
+  | Ok data =>
+      St (connected st) (dead st) (eagains st) (inbuffer st) (outbuffer st ++ data) (wire st)
+         (taken st ++ text) (queued st ++ text) (received st) (delivered st)
+  end.
 
-(* if self.outbuffer: try: sent = conn.send(outbuffer.encode()); outbuffer = outbuffer[sent:];
+(* if self.outbuffer: try: sent = conn.send(outbuffer); outbuffer = outbuffer[sent:];
    eagains = 0  except socket.error as e: _handleSocketError(e) *)
 Definition try_send (s : sres) (st : state) : state :=
   match outbuffer st with
   | [] => st
   | _ :: _ =>
-      match encode_str (outbuffer st) with
-      | Raise e => set_dead st e                       (* UnicodeEncodeError is not a socket.error *)
-      | Ok data =>
-          match s with
-          | Sent k =>
-              let n := sent_count k data in
-              St (connected st) (dead st) 0 (inbuffer st)
-                 (skipn n (outbuffer st))               (* sliced by the BYTE count *)
-                 (wire st ++ firstn n data) (taken st)
-                 (slipped st || negb (cut_ok n (outbuffer st) data))
-                 (received st) (delivered st)
-          | SErr code => handle_error (Some code) st
-          end
+      match s with
+      | Sent k =>
+          let n := sent_count k (outbuffer st) in
+          St (connected st) (dead st) 0 (inbuffer st)
+             (skipn n (outbuffer st))                   (* bytes sliced by the byte count *)
+             (wire st ++ firstn n (outbuffer st)) (taken st) (queued st)
+             (received st) (delivered st)
+      | SErr code => handle_error (Some code) st
       end
   end.
 
 (* _sendIfMsgs() with zombie = False *)
 Definition send_if_msgs (msgs : list str) (s : sres) (st : state) : state :=
   if negb (connected st) then st                       (* if not self.connected: return *)
-  else try_send s (enqueue msgs st).
+  else
+    let st1 := enqueue msgs st in
+    match dead st1 with
+    | Some _ => st1                                    (* the encoding raised *)
+    | None => try_send s st1
+    end.
 
 (* drivers.parseMsg *)
 Definition parse_msg (s : str) : res (option M) :=
@@ -191,13 +195,18 @@ Definition parse_msg (s : str) : res (option M) :=
   | s' => do m <- parse s'; Ok (Some m)
   end.
 
-(* the `for line in lines` loop: messages fed, and the exception that left it *)
+(* except ircmsgs.MalformedIrcMsg: log; continue  -- the regenerated except clause *)
+Definition read_catches (e : exn) : bool := existsb (exn_eqb e) gen.T11.READ_CATCHES.
+
+(* the `for line in lines` loop: messages fed, and the exception that left it.
+   A line whose parse raises a caught exception is skipped (repair of C07.F4);
+   any other exception leaves _read. *)
 Fixpoint feed_lines (lines : list bytes) : list M * option exn :=
   match lines with
   | [] => ([], None)
   | l :: ls =>
       match parse_msg (decode l) with
-      | Raise e => ([], Some e)
+      | Raise e => if read_catches e then feed_lines ls else ([], Some e)
       | Ok None => feed_lines ls
       | Ok (Some m) => let '(d, e) := feed_lines ls in (m :: d, e)
       end
@@ -213,7 +222,7 @@ Definition read (r : rres) (msgs : list str) (s : sres) (st : state) : state :=
       let pieces := split_char sep (inbuffer st ++ b) in
       let '(d, e) := feed_lines (removelast pieces) in
       let st1 := St (connected st) (dead st) 0 (last pieces []) (outbuffer st) (wire st) (taken st)
-                    (slipped st) (received st ++ b) (delivered st ++ d) in
+                    (queued st) (received st ++ b) (delivered st ++ d) in
       match e with
       | Some x => set_dead st1 x                      (* the exception leaves _read *)
       | None => send_if_msgs msgs s st1
@@ -243,18 +252,15 @@ Fixpoint run_snaps (st : state) (tr : list event) : list state :=
 Definition spec_lines (stream : bytes) : list bytes := removelast (split_char sep stream).
 Definition spec_rest (stream : bytes) : bytes := last (split_char sep stream) [].
 Definition spec_in (stream : bytes) : list M * option exn := feed_lines (spec_lines stream).
+(* the messages of the lines that parse; rejected and blank lines give none *)
+Definition accepted_msgs (lines : list bytes) : list M :=
+  flat_map (fun l => match parse_msg (decode l) with Ok (Some m) => [m] | _ => [] end) lines.
 
 End Driver.
 
 Arguments connected {M}. Arguments dead {M}. Arguments eagains {M}. Arguments inbuffer {M}.
-Arguments outbuffer {M}. Arguments wire {M}. Arguments taken {M}. Arguments slipped {M}.
+Arguments outbuffer {M}. Arguments wire {M}. Arguments taken {M}. Arguments queued {M}.
 Arguments received {M}. Arguments delivered {M}.
-
-(* the domain on which the outgoing clause holds: no short write ever ended
-   beyond a non-ASCII character of the buffered text *)
-Definition out_dom {M} (decode : bytes -> str) (ws : list N) (parse : str -> res M) (sep : N)
-           (tr : list event) : bool :=
-  negb (slipped (run_trace M decode ws parse sep (init M) tr)).
 
 (* reads of successive chunks with an idle queue *)
 Definition reads (chunks : list bytes) : list event :=
@@ -307,11 +313,10 @@ Definition vSnap (st : state str) : value :=
   L [vB (connected st); vDead (dead st); vN (eagains st); vS (inbuffer st); vS (outbuffer st);
      vN (N.of_nat (length (wire st))); vN (N.of_nat (length (delivered st)))].
 Definition vFinal (st : state str) : value :=
-  L [vS (wire st); vS (taken st); vS (received st); vLS (delivered st); vB (slipped st)].
+  L [vS (wire st); vS (taken st); vS (received st); vLS (delivered st); vS (queued st)].
 
 (* run: (op payload)
    op 0: (tbl events) -> ((snapshot after each event) final-observations)
-   op 1: (tbl events) -> out_dom
    op 2: str -> result of str.encode()
    op 3: bytes -> bytes.decode('utf8','replace')
    op 4: str -> str.strip() *)
@@ -324,10 +329,6 @@ Definition run (v : value) : value :=
       let snaps := run_snaps str utf8_decode_replace gen.T11.WHITESPACE (parse_tbl tbl) gen.T11.LINE_SEP
                              (init str) tr in
       L [L (map vSnap snaps); vFinal (last snaps (init str))]
-  | 1 =>
-      let tbl := gTbl (nth_v 0 payload) in
-      let tr := map gEvent (gL (nth_v 1 payload)) in
-      vB (out_dom utf8_decode_replace gen.T11.WHITESPACE (parse_tbl tbl) gen.T11.LINE_SEP tr)
   | 2 => vR vS (encode_str (gS payload))
   | 3 => vS (utf8_decode_replace (gS payload))
   | 4 => vS (strip gen.T11.WHITESPACE (gS payload))
